@@ -62,6 +62,37 @@ def jsonable(c, out=None):
     return d
 
 
+def lockstep(cases):
+    """advance several link_iter generators (each with its own exact-drift predictor) alternately: what one job
+    does between the steps of another must not matter (the predictor only moves the search origin of ITS job)"""
+    import trackpy as tp
+    from trackpy.predict import predictor
+    from trackpy.linking.utils import SubnetOversizeException
+    gens, outs = [], []
+    for c in cases:
+        v = np.array(c['v'], dtype=float)
+
+        @predictor
+        def P(t1, particle, v=v):
+            return particle.pos + v * (t1 - particle.t)
+        it = zip(c['tags'], [f.copy() for f in drifted(c)])
+        gens.append(tp.link_iter(it, linkgen.sr_float(c['sr']), memory=c['memory'], link_strategy=c['strategy'], predictor=P))
+        outs.append([])
+    alive = [True] * len(cases)
+    while any(alive):
+        for k, g in enumerate(gens):
+            if not alive[k]:
+                continue
+            try:
+                t, ids = next(g)
+                outs[k].append([int(i) for i in ids])
+            except StopIteration:
+                alive[k] = False
+            except SubnetOversizeException:
+                outs[k].append(None); alive[k] = False
+    return outs
+
+
 def run(chk):
     with linkgen.size_limit(linkgen.LIMIT):
         return _run(chk)
@@ -123,6 +154,25 @@ def _run(chk):
                 if labs is not None and (len(set(labs)) != len(labs) or len(labs) != len(c['frames'][t]) or any(l < 0 for l in labs)):
                     chk.violation('arbitrary predictor: invalid labels', 'labels not unique / complete in frame %d with a jitter predictor' % t,
                                   dict(kind='jitter', case=jsonable(c, out_j), jitter=jit))
+    # two jobs in lockstep (a large movie with memory and a small one started alongside)
+    for k in range(n // 4):
+        a = gen(chk.rng, chk.tier); a['memory'] = chk.rng.choice([1, 2, 3])
+        b = gen(chk.rng, chk.tier)
+        b['frames'] = [f[:chk.rng.randint(1, 3)] for f in b['frames']]
+        if any(linkgen.max_inrange(c['frames'], c['sr'], c['memory']) > 8 for c in (a, b)):
+            continue
+        c02.safe_strategy(a); c02.safe_strategy(b)
+        outs = lockstep([a, b])
+        for c, out_d in zip((a, b), outs):
+            if any(o is None for o in out_d):
+                continue
+            w, R2 = linkgen.metric_of(c['sr'], c['ndim'], 4)
+            head = "%s, %s, %s" % (linkgen.cmetric(w, R2), cnat(c['memory']), cnat(c['max_size']))
+            t_drift.append("(%s, %s, %s, %s, %s)" % (head, linkgen.cframes(drifted(c), 4), linkgen.cobs(out_d),
+                                                       clist([cZ(4 * x) for x in c['v']]), clist([cZ(t) for t in c['tags']])))
+            t_plain.append("(%s, %s, %s)" % (head, linkgen.cframes(c['frames'], 4), linkgen.cobs(out_d)))
+            metas.append((c, out_d, out_d, True))
+            chk.tally('job advanced in lockstep with another predictor job')
     rd = common.coq_eval_lists(chk.work, IMPORTS, FUNC_DRIFT, t_drift, tag='drift')
     rp = common.coq_eval_lists(chk.work, IMPORTS, FUNC_PLAIN, t_plain, tag='plain')
     for (c, out_d, out_p, same), a, b in zip(metas, rd, rp):
